@@ -127,7 +127,7 @@ class World:
         self.m_undone = []
         self.serial = 0           # step counter
         self.join_serial = {}     # dataset name -> serial of the step at which it last joined the collection
-        self.group_serial = {}    # id(group) -> serial of the step that created it
+        self.group_serial = []    # (group, serial of the step that created it); objects kept alive, looked up by identity
         self.ever_removed = set()
         self.n_extra = 0
         self.n_merged = 0
@@ -252,7 +252,7 @@ class World:
                 st = build_state(STATE_VARIANTS[tok[1] % len(STATE_VARIANTS)], self.cid)
                 g = dc.new_subset_group(label="g%d" % self.n_group, subset_state=st)
                 self.groups.append(g)
-                self.group_serial[id(g)] = self.serial
+                self.group_serial.append((g, self.serial))
                 self.changes += 1
             elif op == "remove_group":
                 g = self.live_group(tok[1])
@@ -371,7 +371,7 @@ class World:
         if new:
             if may_create_group and len(new) == 1:
                 self.groups.append(new[0])
-                self.group_serial[id(new[0])] = self.serial
+                self.group_serial.append((new[0], self.serial))
                 self.changes += 1
                 info["created_group"] = True
                 self.flags.add("command_created_group")
@@ -438,7 +438,7 @@ class World:
             if d is not None and not own:
                 # did the (dataset, group) pair come into being after the command ran?
                 sig["pair_formed_since_cmd"] = (self.join_serial.get(self.names.of(d), -1) > ent["serial"] or
-                                                (g is not None and self.group_serial.get(id(g), -1) > ent["serial"]))
+                                                (g is not None and max([n for x, n in self.group_serial if x is g] or [-1]) > ent["serial"]))
         elif d is not None:
             sig["dataset_was_removed_and_readded"] = self.names.of(d) in self.ever_removed
         sig.update(keys)
